@@ -613,20 +613,22 @@ func soakCases(c *Ctx, rng *rand.Rand, prefix string) []*WCase {
 
 // bulkCases: see execBulk.
 func bulkCases(c *Ctx, rng *rand.Rand, prefix string) []*WCase {
-	per := 12000
+	per, reps := 12000, 1
 	if prefix != "C16" {
 		per = 3000 // (the full count runs in C16, whose statement names Close; here a sample)
 	}
 	if c.Tier == "thorough" {
-		per = 150000
+		per, reps = 12000, 12 // (more cases, not longer ones: a case has a time limit)
 	}
 	var cases []*WCase
 	for si, set := range accelSettings {
 		for ci, cl := range []string{"uniform", "nearuniform"} {
-			cs := &WCase{ID: fmt.Sprintf("%s-bulk-%d-%d", prefix, si, ci), Set: set, Tag: settingTag(set) + "|bulk-" + cl, Bulk: per,
-				Data: DataSpec{Class: cl, Seed: rng.Int63n(1 << 30), Len: 1}}
-			cases = append(cases, cs)
-			c.ev.nontrivial(cs.Tag)
+			for rep := 0; rep < reps; rep++ {
+				cs := &WCase{ID: fmt.Sprintf("%s-bulk-%d-%d-%d", prefix, si, ci, rep), Set: set, Tag: settingTag(set) + "|bulk-" + cl, Bulk: per,
+					Data: DataSpec{Class: cl, Seed: rng.Int63n(1 << 30), Len: 1}}
+				cases = append(cases, cs)
+				c.ev.nontrivial(fmt.Sprintf("%s|%d", cs.Tag, rep))
+			}
 		}
 	}
 	return cases
